@@ -153,6 +153,9 @@ def deco_text(kind: str, c: Dict[str, Any]) -> str:
         con = "" if check_on == "DEFAULT" else ", check_on=icontract.InvariantCheckEvent.{}".format(check_on)
         return "@icontract.invariant({}, description={!r}{}{})".format(fn, "D:" + cid, con, _err_kw(c))
     deco = "require" if kind == "pre" else "ensure"
+    if c.get("shared"):
+        # one decorator object, created once at module level and applied to several members (cf. ``render``)
+        return "@SH_{}".format(cid)
     if form == "lambda":
         fn = "lambda {}: HUB.cond({!r}, {})".format(", ".join(args), cid, got_text(args))
     else:
@@ -261,8 +264,19 @@ def foreign(tag):
 
 def render(prog: Dict[str, Any]) -> str:
     out = [PRELUDE]
+    rendered = set()
+    shared = []
     for role, c, _owner, _m in iter_contracts(prog):
+        if c.get("shared"):
+            if c["id"] in rendered:
+                continue
+            shared.append((role, c))
+        rendered.add(c["id"])
         render_helpers(c, role, out)
+    for role, c in shared:
+        # a re-usable decorator object (its condition is a named function: a lambda outside of a decorator can not be re-read)
+        out.append("SH_{} = icontract.{}(c_{}, description={!r}{})\n".format(
+            c["id"], "require" if role == "pre" else "ensure", c["id"], "D:" + c["id"], _err_kw(c)))
     out.append("\n")
     for m in prog.get("funcs", []):
         out.append("try:\n")
